@@ -1,64 +1,1114 @@
-//! probe (temporary)
+//! C20 engine `keys`: Direction-A replay of the cases emitted from spec/Keys.tla (MC_Keys) against the
+//! real keychain / proof / builder / reward code.  Each case is instantiated `--insts` times with seed
+//! bytes, random path components and amounts drawn from VERIF_SEED (`--seed`).
+//!
+//!   h_keys replay --cases F --out F --seed S --insts N --shard I --nshards K
+//!   h_keys probe                      (behaviours outside the property's quantifier, informational)
+//!
+//! The harness never decides what is right: expected result classes, zero-ness of sums and builder
+//! domains come from the case records; the harness only maps class names to concrete values, runs the
+//! code and classifies what came back.
+use grin_core::core::transaction::Weighting;
+use grin_core::core::{Block, BlockHeader, FeeFields, KernelFeatures, Transaction, TxKernel};
+use grin_core::global;
 use grin_core::libtx::proof::{self, LegacyProofBuilder, ProofBuild, ProofBuilder};
-use grin_keychain::{BlindSum, BlindingFactor, ExtKeychain, ExtKeychainPath, Identifier, Keychain, SwitchCommitmentType, ViewKey};
+use grin_core::libtx::{aggsig, build, reward};
+use grin_core::pow::Difficulty;
+use grin_keychain::{
+	BlindSum, BlindingFactor, ChildNumber, ExtKeychain, ExtKeychainPath, Identifier, Keychain,
+	SwitchCommitmentType, ViewKey,
+};
 use grin_util::secp::key::SecretKey;
-use std::time::Instant;
+use grin_util::secp::pedersen::{Commitment, ProofMessage, RangeProof};
+use grin_util::secp::Secp256k1;
+use serde_json::{json, Value};
+use std::panic::{catch_unwind, AssertUnwindSafe};
+use vcommon::*;
 
-fn main() {
-	let kc = ExtKeychain::from_seed(&[7u8; 32], false).unwrap();
-	let secp = kc.secp();
-	let b = ProofBuilder::new(&kc);
-	let lb = LegacyProofBuilder::new(&kc);
-	for amt in [0u64, 1, 60_000_000_000, 1u64 << 63, u64::MAX] {
-		for sw in [SwitchCommitmentType::Regular, SwitchCommitmentType::None] {
-			let id = ExtKeychainPath::new(4, 1, 0x7fffffff, 0x80000000, 0xffffffff).to_identifier();
-			let t = Instant::now();
-			let c = kc.commit(amt, &id, sw);
-			println!("amt {} sw {:?} commit {:?}", amt, sw, c.is_ok());
-			let c = c.unwrap();
-			let p = proof::create(&kc, &b, amt, &id, sw, c, None).unwrap();
-			let t1 = t.elapsed();
-			let v = proof::verify(secp, c, p, None);
-			let t2 = t.elapsed();
-			let r = proof::rewind(secp, &b, c, None, p);
-			let t3 = t.elapsed();
-			println!("  plen {} verify {:?} rewind {:?}  t create {:?} verify {:?} rewind {:?}", p.plen, v.is_ok(), r, t1, t2 - t1, t3 - t2);
-			let r2 = proof::rewind(secp, &lb, c, None, p);
-			println!("  legacy rewind of new: {:?}", r2);
+// ---------------------------------------------------------------------------------------------
+// deterministic randomness (splitmix64), independent of the rand crate's versions
+
+#[derive(Clone)]
+struct Rng(u64);
+impl Rng {
+	fn new(a: u64, b: u64, c: u64) -> Rng {
+		let mut r = Rng(a ^ 0x9E37_79B9_7F4A_7C15);
+		r.next();
+		r.0 ^= b.wrapping_mul(0xBF58_476D_1CE4_E5B9);
+		r.next();
+		r.0 ^= c.wrapping_mul(0x94D0_49BB_1331_11EB);
+		r.next();
+		r
+	}
+	fn next(&mut self) -> u64 {
+		self.0 = self.0.wrapping_add(0x9E37_79B9_7F4A_7C15);
+		let mut z = self.0;
+		z = (z ^ (z >> 30)).wrapping_mul(0xBF58_476D_1CE4_E5B9);
+		z = (z ^ (z >> 27)).wrapping_mul(0x94D0_49BB_1331_11EB);
+		z ^ (z >> 31)
+	}
+	fn below(&mut self, n: u64) -> u64 {
+		self.next() % n
+	}
+	fn range(&mut self, lo: u64, hi: u64) -> u64 {
+		lo + self.below(hi - lo + 1)
+	}
+	fn bytes32(&mut self) -> [u8; 32] {
+		let mut b = [0u8; 32];
+		for i in 0..4 {
+			b[i * 8..i * 8 + 8].copy_from_slice(&self.next().to_be_bytes());
+		}
+		b
+	}
+}
+
+// ---------------------------------------------------------------------------------------------
+// class name -> concrete value
+
+struct World {
+	rng_base: (u64, u64, u64),
+	seeds: Vec<[u8; 32]>,
+	is_test: bool,
+	arand: u64,
+}
+
+impl World {
+	fn new(seed: u64, case: u64, inst: u64) -> World {
+		let mut r = Rng::new(seed, case, inst);
+		let mut seeds = vec![];
+		for _ in 0..3 {
+			seeds.push(r.bytes32());
+		}
+		let arand = r.next();
+		World {
+			rng_base: (seed, case, inst),
+			seeds,
+			is_test: inst % 2 == 1,
+			arand,
 		}
 	}
-	// zero sums
-	let x = SecretKey::from_slice(secp, &[3u8; 32]).unwrap();
-	let bx = BlindingFactor::from_secret_key(x.clone());
-	let r = kc.blind_sum(&BlindSum::new().add_blinding_factor(bx.clone()).sub_blinding_factor(bx.clone()));
-	println!("x-x = {:?} zero? {:?}", r.is_ok(), r.as_ref().map(|b| b.is_zero()));
-	let r = kc.blind_sum(&BlindSum::new());
-	println!("empty = {:?} zero? {:?}", r.is_ok(), r.as_ref().map(|b| b.is_zero()));
-	let z = BlindingFactor::zero();
-	println!("commit(0,zero) {:?}", secp.commit(0, z.secret_key(secp).unwrap()));
-	println!("x.split(x) {:?}", bx.split(&bx, secp).map(|b| b.is_zero()));
-	println!("x.split(zero) == x {:?}", bx.split(&z, secp).map(|b| b == bx));
-	println!("zero.split(x) {:?}", z.split(&bx, secp).map(|b| b.is_zero()));
-	println!("zero.add(zero) {:?}", z.add(&z, secp).map(|b| b.is_zero()));
-	println!("x.add(zero)==x {:?}", bx.add(&z, secp).map(|b| b == bx));
-	let r = kc.blind_sum(&BlindSum::new().add_blinding_factor(z.clone()).add_blinding_factor(bx.clone()));
-	println!("0+x == x {:?}", r.map(|b| b == bx));
-	println!("commit_value(0) {:?}", secp.commit_value(0));
-	println!("commit_sum([],[]) {:?}", secp.commit_sum(vec![], vec![]));
-	let c1 = secp.commit(0, x.clone()).unwrap();
-	println!("commit_sum([c],[c]) {:?}", secp.commit_sum(vec![c1], vec![c1]));
-	// depth 5
-	let id5 = Identifier::from_bytes(&[5u8, 0, 0, 0, 1, 0, 0, 0, 1, 0, 0, 0, 1, 0, 0, 0, 1]);
-	let r = std::panic::catch_unwind(|| kc.derive_key(1, &id5, SwitchCommitmentType::None).is_ok());
-	println!("depth5 derive: {:?}", r.is_ok());
-	// view key
-	let mut h = kc.hasher();
-	let vk = ViewKey::create(&kc, kc.master.clone(), &mut h, false).unwrap();
-	let id = ExtKeychainPath::new(0, 0, 0, 0, 0).to_identifier();
-	for sw in [SwitchCommitmentType::Regular, SwitchCommitmentType::None] {
-		let c = kc.commit(5, &id, sw).unwrap();
-		let p = proof::create(&kc, &b, 5, &id, sw, c, None).unwrap();
-		println!("view rewind depth0 {:?}: {:?}", sw, proof::rewind(secp, &vk, c, None, p));
+	fn seed(&self, name: &str) -> &[u8; 32] {
+		match name {
+			"s1" => &self.seeds[0],
+			"s2" => &self.seeds[1],
+			"s3" => &self.seeds[2],
+			x => panic!("seed class {}", x),
+		}
 	}
-	let _ = lb.rewind_nonce(secp, &secp.commit(1, x).unwrap());
+	fn keychain(&self, name: &str) -> ExtKeychain {
+		ExtKeychain::from_seed(self.seed(name), self.is_test).expect("from_seed")
+	}
+	/// the same class at the same position is the same number within one instantiation
+	fn comp(&self, pos: usize, class: &str) -> u32 {
+		let mut r = Rng::new(
+			self.rng_base.0 ^ 0xC0FFEE,
+			self.rng_base.1,
+			self.rng_base.2 * 16 + pos as u64,
+		);
+		match class {
+			"c0" => 0,
+			"c1" => 1,
+			"nmax" => 0x7fff_ffff,
+			"h0" => 0x8000_0000,
+			"hmax" => 0xffff_ffff,
+			"nr" => r.range(2, 0x7fff_fffe) as u32,
+			"hr" => r.range(0x8000_0001, 0xffff_fffe) as u32,
+			x => panic!("comp class {}", x),
+		}
+	}
+	fn amount(&self, class: &str) -> u64 {
+		match class {
+			"a0" => 0,
+			"a1" => 1,
+			"a60" => 60_000_000_000,
+			"a63" => 1u64 << 63,
+			"amax" => u64::MAX,
+			"arand" => self.arand,
+			x => panic!("amount class {}", x),
+		}
+	}
+	fn path(&self, p: &Value) -> Vec<u32> {
+		p.as_array()
+			.unwrap()
+			.iter()
+			.enumerate()
+			.map(|(i, c)| self.comp(i, c.as_str().unwrap()))
+			.collect()
+	}
+}
+
+fn ident(path: &[u32]) -> Identifier {
+	let g = |i: usize| if i < path.len() { path[i] } else { 0 };
+	ExtKeychainPath::new(path.len() as u8, g(0), g(1), g(2), g(3)).to_identifier()
+}
+
+fn mode_of(s: &str) -> SwitchCommitmentType {
+	match s {
+		"Regular" => SwitchCommitmentType::Regular,
+		"None" => SwitchCommitmentType::None,
+		x => panic!("mode {}", x),
+	}
+}
+
+fn hex(b: &[u8]) -> String {
+	b.iter().map(|x| format!("{:02x}", x)).collect()
+}
+
+enum AnyBuilder<'a> {
+	New(ProofBuilder<'a, ExtKeychain>),
+	Legacy(LegacyProofBuilder<'a, ExtKeychain>),
+}
+
+impl<'a> AnyBuilder<'a> {
+	fn make(kind: &str, kc: &'a ExtKeychain) -> AnyBuilder<'a> {
+		match kind {
+			"new" => AnyBuilder::New(ProofBuilder::new(kc)),
+			"legacy" => AnyBuilder::Legacy(LegacyProofBuilder::new(kc)),
+			x => panic!("builder kind {}", x),
+		}
+	}
+}
+
+// ProofBuild by delegation so that generic code can take either generation
+impl<'a> ProofBuild for AnyBuilder<'a> {
+	fn rewind_nonce(&self, secp: &Secp256k1, commit: &Commitment) -> Result<SecretKey, grin_core::libtx::Error> {
+		match self {
+			AnyBuilder::New(b) => b.rewind_nonce(secp, commit),
+			AnyBuilder::Legacy(b) => b.rewind_nonce(secp, commit),
+		}
+	}
+	fn private_nonce(&self, secp: &Secp256k1, commit: &Commitment) -> Result<SecretKey, grin_core::libtx::Error> {
+		match self {
+			AnyBuilder::New(b) => b.private_nonce(secp, commit),
+			AnyBuilder::Legacy(b) => b.private_nonce(secp, commit),
+		}
+	}
+	fn proof_message(
+		&self,
+		secp: &Secp256k1,
+		id: &Identifier,
+		switch: SwitchCommitmentType,
+	) -> Result<ProofMessage, grin_core::libtx::Error> {
+		match self {
+			AnyBuilder::New(b) => b.proof_message(secp, id, switch),
+			AnyBuilder::Legacy(b) => b.proof_message(secp, id, switch),
+		}
+	}
+	fn check_output(
+		&self,
+		secp: &Secp256k1,
+		commit: &Commitment,
+		amount: u64,
+		message: ProofMessage,
+	) -> Result<Option<(Identifier, SwitchCommitmentType)>, grin_core::libtx::Error> {
+		match self {
+			AnyBuilder::New(b) => b.check_output(secp, commit, amount, message),
+			AnyBuilder::Legacy(b) => b.check_output(secp, commit, amount, message),
+		}
+	}
+}
+
+/// Classify a rewind answer against the creation triple: exact | garbage | none | err | panic
+fn classify<B: ProofBuild>(
+	secp: &Secp256k1,
+	b: &B,
+	commit: Commitment,
+	proof: RangeProof,
+	want: (u64, &Identifier, SwitchCommitmentType),
+) -> (String, Value) {
+	let r = catch_unwind(AssertUnwindSafe(|| proof::rewind(secp, b, commit, None, proof)));
+	match r {
+		Err(_) => ("panic".into(), Value::Null),
+		Ok(Err(e)) => ("err".into(), json!(format!("{:?}", e))),
+		Ok(Ok(None)) => ("none".into(), Value::Null),
+		Ok(Ok(Some((a, id, sw)))) => {
+			if a == want.0 && &id == want.1 && sw == want.2 {
+				("exact".into(), Value::Null)
+			} else {
+				(
+					"garbage".into(),
+					json!({"amount": a.to_string(), "id": hex(&id.to_bytes()), "switch": format!("{:?}", sw)}),
+				)
+			}
+		}
+	}
+}
+
+fn class_ok(exp: &str, got: &str) -> bool {
+	match exp {
+		"some" => got == "exact",
+		"none" => got == "none" || got == "err",
+		// ViewKey::commit(.., Regular) is not implemented in the code (Err); if it ever is, the
+		// only acceptable data is the exact triple
+		"unsupported" => got == "none" || got == "err" || got == "exact",
+		x => panic!("exp class {}", x),
+	}
+}
+
+struct Tally {
+	checks: u64,
+	proofs: u64,
+	mism: Vec<Value>,
+}
+
+impl Tally {
+	fn ok(&mut self, cond: bool, what: &str, inst: u64, detail: Value) {
+		self.checks += 1;
+		if !cond && self.mism.len() < 8 {
+			self.mism.push(json!({"what": what, "inst": inst, "detail": detail}));
+		}
+	}
+}
+
+fn child_numbers(p: &[u32]) -> Vec<ChildNumber> {
+	p.iter().map(|x| ChildNumber::from(*x)).collect()
+}
+
+fn message_for(fmt: &str, id: &Identifier, sw: SwitchCommitmentType) -> [u8; 20] {
+	let idb = id.to_bytes();
+	let mut m = [0u8; 20];
+	m[4..20].copy_from_slice(&idb[1..17]);
+	let swb: u8 = match sw {
+		SwitchCommitmentType::None => 0,
+		SwitchCommitmentType::Regular => 1,
+	};
+	match fmt {
+		"new" => {
+			m[2] = swb;
+			m[3] = idb[0];
+		}
+		"legacy" => {}
+		"wallet1" => {
+			m[1] = 1;
+			m[2] = swb;
+			m[3] = idb[0];
+		}
+		"sw2" => {
+			m[2] = 2;
+			m[3] = idb[0];
+		}
+		x => panic!("fmt {}", x),
+	}
+	m
+}
+
+// ---------------------------------------------------------------------------------------------
+// kind = "out": create / verify / rewind matrix / view keys / siblings
+
+fn replay_out(c: &Value, w: &World, inst: u64, t: &mut Tally) {
+	let a = &c["args"];
+	let sname = a["seed"].as_str().unwrap();
+	let path = w.path(&a["path"]);
+	let amt = w.amount(a["amt"].as_str().unwrap());
+	let mode = mode_of(a["mode"].as_str().unwrap());
+	let fam = a["fam"].as_str().unwrap();
+	let fmt = a["fmt"].as_str().unwrap();
+	let id = ident(&path);
+
+	// identifier <-> path round trip
+	let back = id.to_path();
+	t.ok(
+		back.depth as usize == path.len() && (0..4).all(|i| u32::from(back.path[i]) == *path.get(i).unwrap_or(&0)),
+		"ident_roundtrip",
+		inst,
+		json!({"id": hex(&id.to_bytes())}),
+	);
+
+	// determinism: two FRESH keychains from the same seed bytes
+	let kc1 = w.keychain(sname);
+	let kc2 = w.keychain(sname);
+	let k1 = catch_unwind(AssertUnwindSafe(|| kc1.derive_key(amt, &id, mode)));
+	let k2 = catch_unwind(AssertUnwindSafe(|| kc2.derive_key(amt, &id, mode)));
+	let (k1, k2) = match (k1, k2) {
+		(Ok(Ok(x)), Ok(Ok(y))) => (x, y),
+		(x, _) => {
+			t.ok(false, "derive_key_failed", inst, json!(format!("{:?}", x.map(|r| r.is_ok()))));
+			return;
+		}
+	};
+	t.ok(k1 == k2, "derive_nondeterministic", inst, json!({"depth": path.len()}));
+	let c1 = kc1.commit(amt, &id, mode);
+	let c2 = kc2.commit(amt, &id, mode);
+	let (commit, c2) = match (c1, c2) {
+		(Ok(x), Ok(y)) => (x, y),
+		_ => {
+			t.ok(false, "commit_failed", inst, json!({"amt": amt.to_string()}));
+			return;
+		}
+	};
+	t.ok(commit == c2, "commit_nondeterministic", inst, json!({"depth": path.len()}));
+	// commit is the Pedersen commitment to (amount, derived key)
+	t.ok(
+		kc1.secp().commit(amt, k1.clone()).ok() == Some(commit),
+		"commit_not_of_derived_key",
+		inst,
+		Value::Null,
+	);
+	// the no-switch key equals the plain BIP32 private derivation
+	if mode == SwitchCommitmentType::None {
+		let mut h = kc1.hasher();
+		let x = kc1.master.derive_priv(kc1.secp(), &mut h, &child_numbers(&path));
+		t.ok(
+			x.map(|e| e.secret_key == k1).unwrap_or(false),
+			"derive_key_vs_derive_priv",
+			inst,
+			Value::Null,
+		);
+	}
+
+	// creation
+	let b1 = AnyBuilder::make(fam, &kc1);
+	let secp = kc1.secp();
+	let proof = if fam == fmt {
+		catch_unwind(AssertUnwindSafe(|| proof::create(&kc1, &b1, amt, &id, mode, commit, None)))
+	} else {
+		catch_unwind(AssertUnwindSafe(|| {
+			let rn = b1.rewind_nonce(secp, &commit)?;
+			let pn = b1.private_nonce(secp, &commit)?;
+			let m = message_for(fmt, &id, mode);
+			Ok(secp.bullet_proof(amt, k1.clone(), rn, pn, None, Some(ProofMessage::from_bytes(&m))))
+		}))
+	};
+	t.proofs += 1;
+	let proof: RangeProof = match proof {
+		Ok(Ok(p)) => p,
+		Ok(Err(e)) => {
+			t.ok(false, "create_err", inst, json!(format!("{:?}", e)));
+			return;
+		}
+		Err(_) => {
+			t.ok(false, "create_panic", inst, json!({"amt": amt.to_string()}));
+			return;
+		}
+	};
+	if fam == fmt && inst == 0 {
+		// what the builder writes is what the format table of the specification says
+		let m = b1.proof_message(secp, &id, mode).map(|m| m.as_bytes().to_vec()).unwrap_or_default();
+		t.ok(m == message_for(fmt, &id, mode).to_vec(), "message_layout", inst, json!({"msg": hex(&m)}));
+	}
+	let v = catch_unwind(AssertUnwindSafe(|| proof::verify(secp, commit, proof, None)));
+	t.ok(matches!(v, Ok(Ok(()))), "proof_does_not_verify", inst, json!({"amt": amt.to_string(), "depth": path.len()}));
+
+	let want = (amt, &id, mode);
+	// keychain rewinders: every seed x both generations, each on a fresh keychain
+	for row in c["rew"].as_array().unwrap() {
+		let kc = w.keychain(row["seed"].as_str().unwrap());
+		let kind = row["kind"].as_str().unwrap();
+		let b = AnyBuilder::make(kind, &kc);
+		let (got, det) = classify(kc.secp(), &b, commit, proof, want);
+		let exp = row["exp"].as_str().unwrap();
+		t.ok(
+			class_ok(exp, &got),
+			"rewind",
+			inst,
+			json!({"rw": kind, "same_seed": row["seed"] == a["seed"], "exp": exp, "got": got, "data": det}),
+		);
+	}
+	// view keys
+	for row in c["view"].as_array().unwrap() {
+		let kc = w.keychain(row["seed"].as_str().unwrap());
+		let prefix = w.path(&row["prefix"]);
+		let mut h = kc.hasher();
+		let ext = match kc.master.derive_priv(kc.secp(), &mut h, &child_numbers(&prefix)) {
+			Ok(x) => x,
+			Err(_) => {
+				t.ok(false, "derive_priv_failed", inst, Value::Null);
+				continue;
+			}
+		};
+		let vk = match ViewKey::create(&kc, ext, &mut h, w.is_test) {
+			Ok(x) => x,
+			Err(_) => {
+				t.ok(false, "viewkey_create_failed", inst, Value::Null);
+				continue;
+			}
+		};
+		let mut use_vk = vk.clone();
+		if !prefix.is_empty() && prefix.iter().all(|x| x & 0x8000_0000 == 0) {
+			// the same view key reached by public derivation from the root view key
+			let mut h2 = kc.hasher();
+			let root = ViewKey::create(&kc, kc.master.clone(), &mut h2, w.is_test).unwrap();
+			let mut cur = Ok(root);
+			for x in &prefix {
+				cur = cur.and_then(|k| k.ckd_pub(kc.secp(), &mut h2, ChildNumber::from(*x)));
+			}
+			match cur {
+				Ok(k2) => {
+					t.ok(k2 == vk, "viewkey_pub_vs_priv_derivation", inst, json!({"prefix_depth": prefix.len()}));
+					if inst % 2 == 1 {
+						use_vk = k2;
+					}
+				}
+				Err(_) => t.ok(false, "viewkey_ckd_pub_failed", inst, Value::Null),
+			}
+		}
+		let (got, det) = classify(kc.secp(), &use_vk, commit, proof, want);
+		let exp = row["exp"].as_str().unwrap();
+		t.ok(
+			class_ok(exp, &got),
+			"view_rewind",
+			inst,
+			json!({"prefix_depth": prefix.len(), "same_seed": row["seed"] == a["seed"], "exp": exp, "got": got, "data": det}),
+		);
+	}
+	// siblings: a different argument gives a different commitment; the proof does not transfer
+	for sb in c["sib"].as_array().unwrap() {
+		let kc = w.keychain(sb["seed"].as_str().unwrap());
+		let p2 = w.path(&sb["path"]);
+		let id2 = ident(&p2);
+		let amt2 = w.amount(sb["amt"].as_str().unwrap());
+		let m2 = mode_of(sb["mode"].as_str().unwrap());
+		let c2 = match kc.commit(amt2, &id2, m2) {
+			Ok(x) => x,
+			Err(_) => {
+				t.ok(false, "commit_failed", inst, Value::Null);
+				continue;
+			}
+		};
+		let what = if sb["seed"] != a["seed"] {
+			"seed"
+		} else if sb["amt"] != a["amt"] {
+			"amt"
+		} else if sb["mode"] != a["mode"] {
+			"mode"
+		} else if p2.len() != path.len() {
+			"depth"
+		} else {
+			"comp"
+		};
+		t.ok(c2 != commit, "sibling_commit_collides", inst, json!({"differs_in": what}));
+		let v = catch_unwind(AssertUnwindSafe(|| proof::verify(secp, c2, proof, None)));
+		t.ok(matches!(v, Ok(Err(_))), "proof_verifies_for_other_commit", inst, json!({"differs_in": what}));
+		let (got, det) = classify(secp, &b1, c2, proof, want);
+		t.ok(
+			got == "none" || got == "err",
+			"rewind_on_other_commit",
+			inst,
+			json!({"differs_in": what, "got": got, "data": det}),
+		);
+	}
+}
+
+// ---------------------------------------------------------------------------------------------
+// kind = "alg": blinding-factor identities
+
+enum NameVal {
+	Derived(u64, Identifier, SwitchCommitmentType),
+	Raw(SecretKey),
+}
+
+fn rand_path(r: &mut Rng) -> Vec<u32> {
+	let d = r.below(5) as usize;
+	(0..d)
+		.map(|_| match r.below(6) {
+			0 => 0,
+			1 => 1,
+			2 => 0x7fff_ffff,
+			3 => 0x8000_0000,
+			4 => 0xffff_ffff,
+			_ => r.next() as u32,
+		})
+		.collect()
+}
+
+fn rand_amount(r: &mut Rng) -> u64 {
+	match r.below(6) {
+		0 => 0,
+		1 => 1,
+		2 => 60_000_000_000,
+		3 => 1u64 << 63,
+		4 => u64::MAX,
+		_ => r.next(),
+	}
+}
+
+fn rand_key(secp: &Secp256k1, r: &mut Rng) -> SecretKey {
+	loop {
+		if let Ok(k) = SecretKey::from_slice(secp, &r.bytes32()) {
+			return k;
+		}
+	}
+}
+
+struct AlgEnv<'a> {
+	kc: &'a ExtKeychain,
+	names: Vec<(String, NameVal)>,
+}
+
+impl<'a> AlgEnv<'a> {
+	fn get(&self, n: &str) -> &NameVal {
+		&self.names.iter().find(|(k, _)| k == n).expect("name").1
+	}
+	/// the key behind a name, as a blinding factor ("z" is the zero key)
+	fn bf(&self, n: &str) -> BlindingFactor {
+		if n == "z" {
+			return BlindingFactor::zero();
+		}
+		match self.get(n) {
+			NameVal::Derived(v, id, sw) => BlindingFactor::from_secret_key(self.kc.derive_key(*v, id, *sw).expect("derive")),
+			NameVal::Raw(k) => BlindingFactor::from_secret_key(k.clone()),
+		}
+	}
+	fn blind_sum_of(&self, terms: &[(i64, String)]) -> BlindSum {
+		let mut bs = BlindSum::new();
+		for (s, n) in terms {
+			if n == "z" {
+				bs = if *s > 0 {
+					bs.add_blinding_factor(BlindingFactor::zero())
+				} else {
+					bs.sub_blinding_factor(BlindingFactor::zero())
+				};
+				continue;
+			}
+			match self.get(n) {
+				NameVal::Derived(v, id, sw) => {
+					let mut vp = id.to_value_path(*v);
+					vp.switch = *sw;
+					bs = if *s > 0 { bs.add_key_id(vp) } else { bs.sub_key_id(vp) };
+				}
+				NameVal::Raw(k) => {
+					let b = BlindingFactor::from_secret_key(k.clone());
+					bs = if *s > 0 { bs.add_blinding_factor(b) } else { bs.sub_blinding_factor(b) };
+				}
+			}
+		}
+		bs
+	}
+	fn sum(&self, terms: &[(i64, String)]) -> Result<BlindingFactor, String> {
+		let bs = self.blind_sum_of(terms);
+		match catch_unwind(AssertUnwindSafe(|| self.kc.blind_sum(&bs))) {
+			Ok(Ok(b)) => Ok(b),
+			Ok(Err(e)) => Err(format!("{:?}", e)),
+			Err(_) => Err("panic".into()),
+		}
+	}
+	/// independent evaluation on the curve: commit_sum of the per-term commitments, value parts cancelled
+	fn commit_oracle(&self, terms: &[(i64, String)]) -> Result<Commitment, String> {
+		let secp = self.kc.secp();
+		let mut pos = vec![];
+		let mut neg = vec![];
+		for (s, n) in terms {
+			if n == "z" {
+				continue;
+			}
+			let (c, vc) = match self.get(n) {
+				NameVal::Derived(v, id, sw) => (
+					self.kc.commit(*v, id, *sw).map_err(|e| format!("{:?}", e))?,
+					if *v > 0 {
+						Some(secp.commit_value(*v).map_err(|e| format!("{:?}", e))?)
+					} else {
+						None
+					},
+				),
+				NameVal::Raw(k) => (secp.commit(0, k.clone()).map_err(|e| format!("{:?}", e))?, None),
+			};
+			if *s > 0 {
+				pos.push(c);
+				if let Some(x) = vc {
+					neg.push(x);
+				}
+			} else {
+				neg.push(c);
+				if let Some(x) = vc {
+					pos.push(x);
+				}
+			}
+		}
+		secp.commit_sum(pos, neg).map_err(|e| format!("{:?}", e))
+	}
+}
+
+fn bf_commit(secp: &Secp256k1, b: &BlindingFactor) -> Option<Commitment> {
+	b.secret_key(secp).ok().and_then(|k| secp.commit(0, k).ok())
+}
+
+fn replay_alg(c: &Value, seed: u64, case: u64, inst: u64, t: &mut Tally) {
+	let mut r = Rng::new(seed ^ 0xA16, case, inst);
+	let kc = ExtKeychain::from_seed(&r.bytes32(), inst % 2 == 1).unwrap();
+	let secp = kc.secp();
+	let mut names = vec![];
+	for n in ["d1", "d2"] {
+		let p = rand_path(&mut r);
+		let sw = if r.below(2) == 0 {
+			SwitchCommitmentType::Regular
+		} else {
+			SwitchCommitmentType::None
+		};
+		names.push((n.to_string(), NameVal::Derived(rand_amount(&mut r), ident(&p), sw)));
+	}
+	for n in ["r1", "r2"] {
+		names.push((n.to_string(), NameVal::Raw(rand_key(secp, &mut r))));
+	}
+	let env = AlgEnv { kc: &kc, names };
+	let terms: Vec<(i64, String)> = c["terms"]
+		.as_array()
+		.unwrap()
+		.iter()
+		.map(|x| (x["s"].as_i64().unwrap(), x["n"].as_str().unwrap().to_string()))
+		.collect();
+	let zero = c["zero"].as_bool().unwrap();
+	let whole = env.sum(&terms);
+	let desc = json!(c["terms"]);
+
+	if zero {
+		// the specification leaves a zero total free (the code answers Err(InvalidSecretKey));
+		// it must never be a non-zero key, and never a panic
+		let ok = match &whole {
+			Ok(b) => b.is_zero(),
+			Err(e) => e != "panic",
+		};
+		t.ok(ok, "alg_zero_sum_not_zero", inst, desc.clone());
+		return;
+	}
+	let w = match whole {
+		Ok(b) => b,
+		Err(e) => {
+			t.ok(false, "alg_blind_sum_failed", inst, json!({"terms": desc, "err": e}));
+			return;
+		}
+	};
+	// against the curve
+	let oracle = env.commit_oracle(&terms);
+	t.ok(
+		!w.is_zero() && oracle.is_ok() && bf_commit(secp, &w) == oracle.clone().ok(),
+		"alg_blind_sum_vs_commit_sum",
+		inst,
+		json!({"terms": desc, "oracle": oracle.map(|_| "ok")}),
+	);
+	// order does not matter
+	let n = terms.len();
+	let mut perms: Vec<Vec<(i64, String)>> = vec![];
+	let mut rev = terms.clone();
+	rev.reverse();
+	perms.push(rev);
+	for i in 0..n.saturating_sub(1) {
+		let mut p = terms.clone();
+		p.swap(i, i + 1);
+		perms.push(p);
+	}
+	if n > 2 {
+		let mut p = terms.clone();
+		p.rotate_left(1);
+		perms.push(p);
+	}
+	for p in perms {
+		t.ok(env.sum(&p).ok().as_ref() == Some(&w), "alg_order_dependent", inst, json!({"terms": desc}));
+	}
+	// + x - x restores
+	for row in c["addx"].as_array().unwrap() {
+		let x = row["n"].as_str().unwrap();
+		let mut e = terms.clone();
+		e.push((1, x.to_string()));
+		e.push((-1, x.to_string()));
+		t.ok(env.sum(&e).ok().as_ref() == Some(&w), "alg_add_sub_in_sum", inst, json!({"terms": desc, "x": x}));
+		let mut e = terms.clone();
+		e.insert(0, (-1, x.to_string()));
+		e.push((1, x.to_string()));
+		t.ok(env.sum(&e).ok().as_ref() == Some(&w), "alg_sub_add_in_sum", inst, json!({"terms": desc, "x": x}));
+		let xb = env.bf(x);
+		if !row["pluszero"].as_bool().unwrap() {
+			let r1 = w.add(&xb, secp).and_then(|y| y.split(&xb, secp));
+			t.ok(r1.ok().as_ref() == Some(&w), "alg_add_then_split", inst, json!({"terms": desc, "x": x}));
+		}
+		if !row["minuszero"].as_bool().unwrap() {
+			let r2 = w.split(&xb, secp).and_then(|y| y.add(&xb, secp));
+			t.ok(r2.ok().as_ref() == Some(&w), "alg_split_then_add", inst, json!({"terms": desc, "x": x}));
+		}
+	}
+	// split parts sum to the whole
+	let cuts: Vec<&Value> = match &c["cuts"] {
+		Value::Object(m) => m.values().collect(),
+		Value::Array(a) => a.iter().collect(),
+		_ => vec![],
+	};
+	for cut in cuts {
+		let k = cut["k"].as_u64().unwrap() as usize;
+		let pz = cut["pzero"].as_bool().unwrap();
+		let sz = cut["szero"].as_bool().unwrap();
+		if pz {
+			// splitting off the zero key leaves the whole
+			let q = w.split(&BlindingFactor::zero(), secp);
+			t.ok(q.ok().as_ref() == Some(&w), "alg_split_zero", inst, json!({"terms": desc, "k": k}));
+			continue;
+		}
+		let p = match env.sum(&terms[..k]) {
+			Ok(p) => p,
+			Err(e) => {
+				t.ok(false, "alg_blind_sum_failed", inst, json!({"terms": desc, "k": k, "err": e}));
+				continue;
+			}
+		};
+		if sz {
+			t.ok(p == w, "alg_prefix_ne_whole", inst, json!({"terms": desc, "k": k}));
+			continue;
+		}
+		let q = match w.split(&p, secp) {
+			Ok(q) => q,
+			Err(e) => {
+				t.ok(false, "alg_split_failed", inst, json!({"terms": desc, "k": k, "err": format!("{:?}", e)}));
+				continue;
+			}
+		};
+		t.ok(
+			p.add(&q, secp).ok().as_ref() == Some(&w),
+			"alg_split_parts_do_not_sum",
+			inst,
+			json!({"terms": desc, "k": k}),
+		);
+		t.ok(
+			env.sum(&terms[k..]).ok().as_ref() == Some(&q),
+			"alg_split_ne_suffix",
+			inst,
+			json!({"terms": desc, "k": k}),
+		);
+		// and on the curve: commit(0,p) + commit(0,q) = commit(0,w)
+		let cs = match (bf_commit(secp, &p), bf_commit(secp, &q)) {
+			(Some(a), Some(b)) => secp.commit_sum(vec![a, b], vec![]).ok(),
+			_ => None,
+		};
+		t.ok(cs.is_some() && cs == bf_commit(secp, &w), "alg_split_commit_sum", inst, json!({"terms": desc, "k": k}));
+	}
+}
+
+// ---------------------------------------------------------------------------------------------
+// kind = "tx" / "cb": builder and reward
+
+fn distinct_ids(r: &mut Rng, n: usize, legacy_depth3: bool) -> Vec<Identifier> {
+	let mut seen: Vec<Vec<u32>> = vec![];
+	while seen.len() < n {
+		let mut p = rand_path(r);
+		if legacy_depth3 {
+			while p.len() < 3 {
+				p.push(r.next() as u32);
+			}
+			p.truncate(3);
+		}
+		if p.is_empty() || seen.contains(&p) {
+			continue;
+		}
+		seen.push(p);
+	}
+	seen.iter().map(|p| ident(p)).collect()
+}
+
+fn fee_of(class: &str, r: &mut Rng) -> u64 {
+	match class {
+		"f1" | "cf1" => 1,
+		"ftyp" | "cftyp" => r.range(100_000, 100_000_000),
+		"fmax" | "cfmax40" => (1u64 << 40) - 1,
+		"cf0" => 0,
+		"cfmax64" => u64::MAX,
+		x => panic!("fee class {}", x),
+	}
+}
+
+fn sign_kernel(secp: &Secp256k1, features: KernelFeatures, excess: &BlindingFactor) -> Result<TxKernel, String> {
+	let mut kernel = TxKernel::with_features(features);
+	let msg = kernel.msg_to_sign().map_err(|e| format!("{:?}", e))?;
+	let skey = excess.secret_key(secp).map_err(|e| format!("{:?}", e))?;
+	kernel.excess = secp.commit(0, skey).map_err(|e| format!("{:?}", e))?;
+	let pubkey = kernel.excess.to_pubkey(secp).map_err(|e| format!("{:?}", e))?;
+	kernel.excess_sig =
+		aggsig::sign_with_blinding(secp, &msg, excess, Some(&pubkey)).map_err(|e| format!("{:?}", e))?;
+	Ok(kernel)
+}
+
+fn replay_tx(c: &Value, seed: u64, case: u64, inst: u64, t: &mut Tally) {
+	let sh = &c["shape"];
+	let mut r = Rng::new(seed ^ 0x7C5, case, inst);
+	let kc = ExtKeychain::from_seed(&r.bytes32(), inst % 2 == 1).unwrap();
+	let fam = if inst % 3 == 2 { "legacy" } else { "new" };
+	let b = AnyBuilder::make(fam, &kc);
+	let secp = kc.secp();
+	let ins: Vec<u64> = sh["ins"].as_array().unwrap().iter().map(|x| x.as_u64().unwrap()).collect();
+	let outs: Vec<u64> = sh["outs"].as_array().unwrap().iter().map(|x| x.as_u64().unwrap()).collect();
+	let via = sh["via"].as_str().unwrap();
+	let fee = fee_of(sh["fee"].as_str().unwrap(), &mut r);
+	let shift = if inst % 3 == 0 { r.below(16) } else { 0 };
+	let units: u64 = ins.iter().sum();
+	let scale = match sh["scale"].as_str().unwrap() {
+		"one" => 1,
+		"grin" => 60_000_000_000,
+		"max" => {
+			if units > 0 {
+				(u64::MAX - fee) / units
+			} else {
+				1
+			}
+		}
+		x => panic!("scale {}", x),
+	};
+	let ids = distinct_ids(&mut r, ins.len() + outs.len() + 1, fam == "legacy");
+	let in_vals: Vec<u64> = ins.iter().enumerate().map(|(i, u)| u * scale + if i == 0 { fee } else { 0 }).collect();
+	let out_vals: Vec<u64> = outs.iter().map(|u| u * scale).collect();
+	let desc = json!({"shape": sh, "fee": fee, "shift": shift, "scale": scale.to_string(), "fam": fam});
+	let ff = match FeeFields::new(shift, fee) {
+		Ok(x) => x,
+		Err(_) => {
+			t.ok(false, "feefields_rejected", inst, desc);
+			return;
+		}
+	};
+	let features = match sh["kern"].as_str().unwrap() {
+		"Plain" => KernelFeatures::Plain { fee: ff },
+		"HeightLocked" => KernelFeatures::HeightLocked {
+			fee: ff,
+			lock_height: r.below(1 << 20),
+		},
+		x => panic!("kern {}", x),
+	};
+	let mut elems = vec![];
+	for (i, v) in in_vals.iter().enumerate() {
+		elems.push(build::input::<ExtKeychain, AnyBuilder>(*v, ids[i].clone()));
+	}
+	for (j, v) in out_vals.iter().enumerate() {
+		elems.push(build::output::<ExtKeychain, AnyBuilder>(*v, ids[ins.len() + j].clone()));
+	}
+	t.proofs += outs.len() as u64;
+	let built = catch_unwind(AssertUnwindSafe(|| -> Result<Transaction, String> {
+		match via {
+			"transaction" | "block" => build::transaction(features, &elems, &kc, &b).map_err(|e| format!("{:?}", e)),
+			"with_kernel" => {
+				let excess = BlindingFactor::from_secret_key(rand_key(secp, &mut r.clone()));
+				let kernel = sign_kernel(secp, features, &excess)?;
+				build::transaction_with_kernel(&elems, kernel, excess, &kc, &b).map_err(|e| format!("{:?}", e))
+			}
+			"partial" => {
+				let (tx, blind) = build::partial_transaction(Transaction::empty(), &elems, &kc, &b)
+					.map_err(|e| format!("{:?}", e))?;
+				let kernel = sign_kernel(secp, features, &blind)?;
+				Ok(tx.replace_kernel(kernel))
+			}
+			x => panic!("via {}", x),
+		}
+	}));
+	let tx = match built {
+		Ok(Ok(tx)) => tx,
+		Ok(Err(e)) => {
+			t.ok(false, "builder_err", inst, json!({"case": desc, "err": e}));
+			return;
+		}
+		Err(_) => {
+			t.ok(false, "builder_panic", inst, desc);
+			return;
+		}
+	};
+	t.ok(
+		tx.inputs().len() == ins.len() && tx.outputs().len() == outs.len() && tx.kernels().len() == 1,
+		"builder_shape",
+		inst,
+		desc.clone(),
+	);
+	t.ok(tx.fee() == fee, "builder_fee", inst, desc.clone());
+	let v = catch_unwind(AssertUnwindSafe(|| tx.validate(Weighting::AsTransaction)));
+	t.ok(
+		matches!(v, Ok(Ok(()))),
+		"tx_does_not_validate",
+		inst,
+		json!({"case": desc, "res": format!("{:?}", v.map_err(|_| "panic"))}),
+	);
+	for k in tx.kernels() {
+		let kv = catch_unwind(AssertUnwindSafe(|| k.verify()));
+		t.ok(matches!(kv, Ok(Ok(()))), "kernel_sig_does_not_verify", inst, desc.clone());
+	}
+	if via == "partial" {
+		t.ok(tx.offset.is_zero(), "partial_offset_not_zero", inst, desc.clone());
+	}
+	// every output is found again by the wallet that built it
+	for (j, v) in out_vals.iter().enumerate() {
+		let id = &ids[ins.len() + j];
+		let cm = kc.commit(*v, id, SwitchCommitmentType::Regular).unwrap();
+		match tx.outputs().iter().find(|o| o.commitment() == cm) {
+			None => t.ok(false, "built_output_commit_unexpected", inst, desc.clone()),
+			Some(o) => {
+				let kc2 = ExtKeychain::from_seed(&Rng::new(seed ^ 0x7C5, case, inst).bytes32(), inst % 2 == 1).unwrap();
+				let b2 = AnyBuilder::make(fam, &kc2);
+				let (got, det) = classify(kc2.secp(), &b2, cm, o.proof, (*v, id, SwitchCommitmentType::Regular));
+				t.ok(got == "exact", "built_output_not_recovered", inst, json!({"case": desc, "got": got, "data": det}));
+			}
+		}
+	}
+	// anti-vacuity: validate must notice a dropped offset / a changed fee
+	if inst == 0 && via != "partial" {
+		let bad = tx.clone().with_offset(BlindingFactor::zero());
+		t.ok(bad.validate(Weighting::AsTransaction).is_err(), "selftest_validate_blind", inst, Value::Null);
+	}
+	if via == "block" {
+		let cb_id = &ids[ins.len() + outs.len()];
+		t.proofs += 1;
+		let res = catch_unwind(AssertUnwindSafe(|| -> Result<(), String> {
+			let rw = reward::output(&kc, &b, cb_id, tx.fee(), inst % 2 == 0).map_err(|e| format!("reward {:?}", e))?;
+			let blk = Block::new(&BlockHeader::default(), &[tx.clone()], Difficulty::min_dma(), rw)
+				.map_err(|e| format!("Block::new {:?}", e))?;
+			blk.validate(&BlindingFactor::zero()).map_err(|e| format!("validate {:?}", e))
+		}));
+		t.ok(
+			matches!(res, Ok(Ok(()))),
+			"block_with_built_tx_and_reward_invalid",
+			inst,
+			json!({"case": desc, "res": format!("{:?}", res.map_err(|_| "panic"))}),
+		);
+	}
+}
+
+fn replay_cb(c: &Value, seed: u64, case: u64, inst: u64, t: &mut Tally) {
+	let sh = &c["shape"];
+	let mut r = Rng::new(seed ^ 0xCB, case, inst);
+	let sbytes = r.bytes32();
+	let other = r.bytes32();
+	let kc = ExtKeychain::from_seed(&sbytes, inst % 2 == 1).unwrap();
+	let fam = sh["fam"].as_str().unwrap();
+	let depth = sh["depth"].as_u64().unwrap() as usize;
+	let b = AnyBuilder::make(fam, &kc);
+	let mut p = rand_path(&mut r);
+	while p.len() < depth {
+		p.push(r.next() as u32);
+	}
+	p.truncate(depth);
+	let id = ident(&p);
+	let fees = fee_of(sh["cbfee"].as_str().unwrap(), &mut r);
+	let desc = json!({"shape": sh, "fees": fees.to_string()});
+	t.proofs += 1;
+	let res = catch_unwind(AssertUnwindSafe(|| reward::output(&kc, &b, &id, fees, inst % 2 == 0)));
+	let (out, kern) = match res {
+		Ok(Ok(x)) => x,
+		Ok(Err(e)) => {
+			t.ok(false, "reward_err", inst, json!({"case": desc, "err": format!("{:?}", e)}));
+			return;
+		}
+		Err(_) => {
+			t.ok(false, "reward_panic", inst, desc);
+			return;
+		}
+	};
+	let value = grin_core::consensus::reward(fees);
+	let secp = kc.secp();
+	t.ok(out.is_coinbase() && kern.is_coinbase(), "reward_features", inst, desc.clone());
+	t.ok(
+		kc.commit(value, &id, SwitchCommitmentType::Regular).ok() == Some(out.commitment()),
+		"reward_commit_nondeterministic",
+		inst,
+		desc.clone(),
+	);
+	t.ok(out.verify_proof().is_ok(), "reward_proof_does_not_verify", inst, desc.clone());
+	let kv = catch_unwind(AssertUnwindSafe(|| kern.verify()));
+	t.ok(matches!(kv, Ok(Ok(()))), "reward_kernel_sig_does_not_verify", inst, desc.clone());
+	let ex = secp
+		.commit_value(value)
+		.and_then(|oc| secp.commit_sum(vec![out.commitment()], vec![oc]));
+	t.ok(ex.ok() == Some(kern.excess), "reward_excess_ne_output_minus_reward", inst, desc.clone());
+	// the wallet finds its coinbase again (fresh keychain), nobody else does
+	let kc2 = ExtKeychain::from_seed(&sbytes, inst % 2 == 1).unwrap();
+	let b2 = AnyBuilder::make(fam, &kc2);
+	let want = (value, &id, SwitchCommitmentType::Regular);
+	let (got, det) = classify(kc2.secp(), &b2, out.commitment(), out.proof, want);
+	let exp = if c["recoverable"].as_bool().unwrap() { "some" } else { "none" };
+	t.ok(class_ok(exp, &got), "reward_rewind", inst, json!({"case": desc, "exp": exp, "got": got, "data": det}));
+	let kc3 = ExtKeychain::from_seed(&other, inst % 2 == 1).unwrap();
+	let b3 = AnyBuilder::make(fam, &kc3);
+	let (got, det) = classify(kc3.secp(), &b3, out.commitment(), out.proof, want);
+	t.ok(class_ok("none", &got), "reward_rewind_other_seed", inst, json!({"case": desc, "got": got, "data": det}));
+	if sh["block"].as_bool().unwrap() {
+		let res = catch_unwind(AssertUnwindSafe(|| -> Result<(), String> {
+			let txs = if fees == 0 {
+				vec![]
+			} else {
+				t.proofs += 1;
+				let ids = distinct_ids(&mut r, 2, fam == "legacy");
+				let v = r.range(0, 1 << 50);
+				let ff = FeeFields::new(0, fees).map_err(|e| format!("{:?}", e))?;
+				vec![build::transaction(
+					KernelFeatures::Plain { fee: ff },
+					&[
+						build::input::<ExtKeychain, AnyBuilder>(v + fees, ids[0].clone()),
+						build::output::<ExtKeychain, AnyBuilder>(v, ids[1].clone()),
+					],
+					&kc,
+					&b,
+				)
+				.map_err(|e| format!("{:?}", e))?]
+			};
+			let blk = Block::new(&BlockHeader::default(), &txs, Difficulty::min_dma(), (out.clone(), kern.clone()))
+				.map_err(|e| format!("Block::new {:?}", e))?;
+			blk.verify_coinbase().map_err(|e| format!("verify_coinbase {:?}", e))?;
+			blk.validate(&BlindingFactor::zero()).map_err(|e| format!("validate {:?}", e))
+		}));
+		t.ok(
+			matches!(res, Ok(Ok(()))),
+			"coinbase_block_invalid",
+			inst,
+			json!({"case": desc, "res": format!("{:?}", res.map_err(|_| "panic"))}),
+		);
+	}
+}
+
+// ---------------------------------------------------------------------------------------------
+
+fn replay(args: &Args) -> i32 {
+	let cases = read_ndjson(args.req("cases"));
+	let mut out = NdWriter::create(args.req("out"));
+	let seed = args.u64("seed", 1);
+	let insts = args.u64("insts", 5);
+	let shard = args.u64("shard", 0);
+	let nshards = args.u64("nshards", 1);
+	for (i, c) in cases.iter().enumerate() {
+		if (i as u64) % nshards != shard {
+			continue;
+		}
+		let idx = c["idx"].as_u64().unwrap_or(i as u64);
+		let mut t = Tally {
+			checks: 0,
+			proofs: 0,
+			mism: vec![],
+		};
+		for inst in 0..insts {
+			let kind = c["kind"].as_str().unwrap_or("");
+			let r = catch_unwind(AssertUnwindSafe(|| match kind {
+				"out" => replay_out(c, &World::new(seed, idx, inst), inst, &mut t),
+				"alg" => replay_alg(c, seed, idx, inst, &mut t),
+				"tx" => replay_tx(c, seed, idx, inst, &mut t),
+				"cb" => replay_cb(c, seed, idx, inst, &mut t),
+				x => panic!("case kind {}", x),
+			}));
+			if r.is_err() {
+				t.ok(false, "harness_or_code_panic", inst, json!({"kind": kind}));
+			}
+		}
+		out.put(&json!({"i": i, "idx": idx, "checks": t.checks, "proofs": t.proofs, "insts": insts, "mismatches": t.mism}));
+	}
+	out.finish();
+	0
+}
+
+/// Behaviours outside the quantifier of the property (recorded in the evidence, no verdict).
+fn probe() -> i32 {
+	let kc = ExtKeychain::from_seed(&[7u8; 32], false).unwrap();
+	let id5 = Identifier::from_bytes(&[5u8, 0, 0, 0, 1, 0, 0, 0, 1, 0, 0, 0, 1, 0, 0, 0, 1]);
+	let d5 = catch_unwind(AssertUnwindSafe(|| kc.derive_key(1, &id5, SwitchCommitmentType::None).is_ok()));
+	let x = BlindingFactor::from_secret_key(SecretKey::from_slice(kc.secp(), &[3u8; 32]).unwrap());
+	let zs = kc.blind_sum(&BlindSum::new().add_blinding_factor(x.clone()).sub_blinding_factor(x.clone()));
+	println!(
+		"{}",
+		json!({
+			"derive_key_depth5": match d5 { Ok(true) => "ok", Ok(false) => "err", Err(_) => "panic" },
+			"blind_sum_zero_total": match zs { Ok(b) => if b.is_zero() { "zero" } else { "nonzero" }, Err(_) => "err" },
+		})
+	);
+	0
+}
+
+fn main() {
+	quiet_panics();
+	global::set_local_chain_type(global::ChainTypes::AutomatedTesting);
+	let a: Vec<String> = std::env::args().skip(1).collect();
+	let args = Args::parse(&a);
+	let rc = match args.pos.get(0).map(|s| s.as_str()) {
+		Some("replay") => replay(&args),
+		Some("probe") => probe(),
+		_ => {
+			eprintln!("keys replay|probe");
+			2
+		}
+	};
+	std::process::exit(rc);
 }
